@@ -30,7 +30,9 @@ def run(ctx, res):
         "means the indentation of the tag line is found); R3 EmptyLineRemover removes the residual line break exactly when "
         "the seam stands on a line break and neither the next nor the previous line is blank (complete table over six atoms); "
         "R4 Prev/NextLineBreakRemover remove one blank line exactly when two line breaks separated only by blanks precede / "
-        "follow the seam; R5 overlapping ranges are merged within their union before deletion (C02.R3/R3b).")
+        "follow the seam; R5 overlapping ranges are merged within their union before deletion (C02.R3/R3b); R6 the indentation IndentRemover reports begins directly "
+        "behind the line break its scan found (the line break itself stays); R7 the scanners are complete: blanks (space and tab) are passed, a line break on a "
+        "boundary is reported, a non-pausing scan passes everything else; R8 IndentRemover acts only when the seam byte is a line break; R9 what its scan finds is returned.")
     res.trusted += ["the pausing scanners skip only blanks (C02.R4 tables)", "driver fact extraction and the abstract interpreter"]
     hull(ctx, res, "C13.R1")
     start_of_file(ctx, res, "C13.R2")
